@@ -476,10 +476,13 @@ def canon(t):
             while "$%d" % n in used:
                 n += 1
             var = ("bound", "$%d" % n)
-            if x[2][0][0] == "global":
-                kind_, it_, d_ = dict_iter(x[2][1])
-                if kind_ is None or kind_ == "keys":
-                    return ("comp", "gen", ("call", x[2][0], (var,), ()), ((("names", var[1]), it_, ()),))
+            kind_, it_, d_ = dict_iter(x[2][1])
+            el_ = var if kind_ in (None, "keys") else ("sub", d_, var) if kind_ == "values" else None
+            if el_ is not None and x[2][0][0] == "global":
+                return ("comp", "gen", ("call", x[2][0], (el_,), ()), ((("names", var[1]), it_, ()),))
+            if el_ is not None and x[2][0][0] == "keyfn" and isinstance(x[2][0][2], str) and "." not in x[2][0][2]:
+                body_ = ("attr", el_, x[2][0][2]) if x[2][0][1] == "attr" else ("sub", el_, ("const", x[2][0][2]))
+                return ("comp", "gen", body_, ((("names", var[1]), it_, ()),))
         if k == "call" and x[1] == ("global", "dict") and len(x[2]) == 1 and not x[3] and x[2][0][0] in ("list", "tuple") \
                 and x[2][0][1] and all(e[0] == "tuple" and len(e[1]) == 2 for e in x[2][0][1]):
             return ("dict", tuple((e[1][0], e[1][1]) for e in x[2][0][1]))      # dict([(k, v), ...]) written out
@@ -1325,13 +1328,29 @@ class Extractor(object):
                     return None
                 return rows
             if v[0] == "local" and v[3][0] in ("list", "tuple", "dict"):
-                # the local must not have been touched since its creation
+                # the local must not have been touched since its creation - except, for a dict, by ``d[<literal>] = value``
+                # stores of new keys (a dict filled step by step, some entries only under a condition)
+                added = []
                 for ev in self.events:
                     for t in (ev.value, ev.target):
                         if t is not None and ev.kind in ("call", "store", "del") and contains(t, lambda x: x[0] == "local" and x[1:3] == v[1:3]) \
                                 and not (ev.kind == "bind"):
+                            if ev.kind == "store" and v[3][0] == "dict" and t is ev.target and ev.target[0] == "sub" \
+                                    and ev.target[1][0] == "local" and ev.target[1][1:3] == v[1:3] and ev.target[2][0] == "const" \
+                                    and not contains(ev.value, lambda x: x[0] == "local" and x[1:3] == v[1:3]) \
+                                    and tuple(ev.loops) == tuple(loops) and tuple(ev.guards[:len(guards)]) == tuple(guards) \
+                                    and ev.target[2] not in [k for k, _ in v[3][1]] and ev.target[2] not in [a_[0] for a_ in added]:
+                                added.append((ev.target[2], ev.value, tuple(ev.guards[len(guards):])))
+                                continue
                             return None
                 init = v[3]
+                if init[0] == "dict" and added:
+                    pairs = [(k, x, ()) for k, x in init[1]] + added
+                    mk = {"keys": lambda k, x: k, None: lambda k, x: k, "values": lambda k, x: x, "items": lambda k, x: ("tuple", (k, x))}[kind]
+                    rows = [mk(k, x) if not g_ else ("guarded", g_, mk(k, x)) for k, x, g_ in pairs]
+                    if len(rows) > 16 or not rows:
+                        return None
+                    return rows
                 if init[0] == "dict":
                     rows = {"keys": [k for k, _ in init[1]], "values": [x for _, x in init[1]],
                             "items": [("tuple", (k, x)) for k, x in init[1]], None: [k for k, _ in init[1]]}[kind]
@@ -1644,8 +1663,13 @@ class Extractor(object):
                     # then produce the same events)
                     env = dict(env)
                     for e_ in elems:
-                        self.bind(s.target, e_, env, guards, loops, s)
-                        ft, env2 = self.block(s.body, env, guards, loops)
+                        g_row = guards
+                        if e_[0] == "guarded":
+                            # an entry that is only there under a condition: its iteration happens under that condition
+                            g_row = guards + tuple(e_[1])
+                            e_ = e_[2]
+                        self.bind(s.target, e_, env, g_row, loops, s)
+                        ft, env2 = self.block(s.body, env, g_row, loops)
                         if not ft:
                             return False, None, ()
                         env = env2
